@@ -295,6 +295,11 @@ struct Extractor {
           o["sg"] = E->getType()->isSignedIntegerOrEnumerationType();
         }
       }
+      // the result type of - and ~ (after promotion): an unsigned result wraps around
+      if ((UO->getOpcode() == UO_Minus || UO->getOpcode() == UO_Not) && E->getType()->isIntegerType()) {
+        o["w"] = (int64_t)Ctx.getTypeSize(E->getType());
+        o["sg"] = E->getType()->isSignedIntegerOrEnumerationType();
+      }
       std::string m = wholeMacro(E);
       if (!m.empty()) o["mac"] = m;
       return std::move(o);
